@@ -1,6 +1,6 @@
 (* Tables.v — lookups over the tables regenerated from the Go source (Gen/Tables.v). *)
 From Model Require Import Bytes.
-From Gen Require Import Consts Tables.
+From Gen Require Import Consts Tables Validators.
 Open Scope Z_scope.
 
 Fixpoint assoc (l : list (Z * Z)) (k : Z) : option Z :=
@@ -24,13 +24,9 @@ Definition kc_crypto_size (t : Z) : option Z := assoc m_key_certificate_CryptoKe
 Definition kc_crypto_pub_sizes (t : Z) : option Z := assoc m_key_certificate_CryptoPublicKeySizes (t mod 65536).
 Definition kc_sig_pub_sizes (t : Z) : option Z := assoc m_key_certificate_SignaturePublicKeySizes (t mod 65536).
 
-(* signature.getSignatureLength: range check written by hand, arms regenerated *)
-Definition sig_length (t : Z) : option Z :=
-  if (t <? 0) || (t >? 65535) then None
-  else match sw_lookup sw_signature_getSignatureLength sw_signature_getSignatureLength_default t with
-       | AInt v => Some v
-       | _ => None
-       end.
+(* signature.getSignatureLength: the function regenerated from its Go body (Gen/Validators.v),
+   whatever shape the source gives it; what the model needs of it is proved in Proofs/SigLen.v *)
+Definition sig_length (t : Z) : option Z := g_signature_getSignatureLength t.
 (* offline_signature.SigningPublicKeySize / SignatureSize (uint16 argument; 0 = unknown) *)
 Definition off_spk_size (t : Z) : Z :=
   match sw_lookup sw_offline_signature_SigningPublicKeySize sw_offline_signature_SigningPublicKeySize_default t with
